@@ -63,6 +63,8 @@ pub struct Swarm {
     pub fail_pct: u32,
     pub multibyte: bool,
     pub epilogue: bool,
+    /// chance (percent) that a declaration in a nested scope re-uses the name of an outer variable
+    pub shadow_pct: u32,
 }
 
 impl Swarm {
@@ -95,6 +97,7 @@ impl Swarm {
             fail_pct: 0,
             multibyte: false,
             epilogue: true,
+            shadow_pct: 0,
         };
         s.stmts = w(4, 40) as usize;
         s.max_depth = w(1, 4) as usize;
@@ -107,6 +110,7 @@ impl Swarm {
         s.w_while = on(s.w_while, 75, r[4]);
         s.w_cycle = on(s.w_cycle, 60, r[5]);
         s.multibyte = r[6] < 40;
+        s.shadow_pct = if r[7] < 60 { 25 } else { 0 };
         if heap_heavy {
             s.w_str += 3;
             s.w_arr += 3;
@@ -153,6 +157,9 @@ pub struct Gen<'a> {
     budget: isize,
     /// functions may read but never write variables that are not their own (session lines)
     pub no_global_writes: bool,
+    pub shadowed: usize,
+    /// names whose scope has ended (and that are not visible any more)
+    dead_names: Vec<String>,
 }
 
 const STRS_ASCII: &[&str] = &["", "a", "abc", "hallo wereld", "x{}y", "{}", "nl", "0", "12", "a\\nb", "Z z"];
@@ -176,6 +183,8 @@ impl<'a> Gen<'a> {
             stmt_counter: 0,
             budget: 0,
             no_global_writes: false,
+            shadowed: 0,
+            dead_names: Vec::new(),
         }
     }
 
@@ -186,18 +195,35 @@ impl<'a> Gen<'a> {
     }
 
     fn visible(&self) -> Vec<&Var> {
+        // innermost scope first; a name declared again in an inner scope hides the outer one
         let mut v: Vec<&Var> = Vec::new();
+        let mut seen: Vec<&str> = Vec::new();
         match self.fn_base.last() {
             None => {
-                for s in &self.scopes {
-                    v.extend(s.vars.iter());
+                for s in self.scopes.iter().rev() {
+                    for x in s.vars.iter().rev() {
+                        if !seen.contains(&x.name.as_str()) {
+                            seen.push(x.name.as_str());
+                            v.push(x);
+                        }
+                    }
                 }
             }
             Some(base) => {
-                // top-level globals (scope 0 only) + the function's own scopes
-                v.extend(self.scopes[0].vars.iter().filter(|x| x.global_top));
-                for s in &self.scopes[*base..] {
-                    v.extend(s.vars.iter());
+                for s in self.scopes[*base..].iter().rev() {
+                    for x in s.vars.iter().rev() {
+                        if !seen.contains(&x.name.as_str()) {
+                            seen.push(x.name.as_str());
+                            v.push(x);
+                        }
+                    }
+                }
+                // top-level globals (scope 0 only)
+                for x in self.scopes[0].vars.iter().rev() {
+                    if x.global_top && !seen.contains(&x.name.as_str()) {
+                        seen.push(x.name.as_str());
+                        v.push(x);
+                    }
                 }
             }
         }
@@ -216,6 +242,41 @@ impl<'a> Gen<'a> {
             .filter(|v| f(v) && !(restrict && v.global_top))
             .cloned()
             .collect()
+    }
+
+    /// Declares a variable whose initialiser is `init`. In a nested scope the name of a visible
+    /// outer variable may be used again (shadowing), unless the initialiser mentions that name
+    /// (a variable must not be read inside its own initialiser).
+    fn declare_init(&mut self, ty: Ty, min_len: usize, init: &str) -> String {
+        let nested = match self.fn_base.last() {
+            None => self.scopes.len() > 1,
+            Some(b) => self.scopes.len() > *b,
+        };
+        let in_global_context = self.fn_base.is_empty();
+        if nested && self.cfg.shadow_pct > 0 && self.rng.below(100) < self.cfg.shadow_pct as u64 {
+            let inner: Vec<String> = self.scopes.last().unwrap().vars.iter().map(|v| v.name.clone()).collect();
+            let cands: Vec<String> = self
+                .visible()
+                .into_iter()
+                // outside functions a top-level global is never shadowed: a function defined inside
+                // the shadowing block would resolve the name to the inner variable
+                .filter(|v| !matches!(v.ty, Ty::Fun(_, _)) && !v.frozen && !inner.contains(&v.name) && v.name.starts_with('v') && !(in_global_context && v.global_top))
+                .map(|v| v.name.clone())
+                .collect();
+            if !cands.is_empty() {
+                let name = self.rng.pick(&cands).clone();
+                let mentions = init
+                    .split(|c: char| !(c.is_alphanumeric() || c == '_'))
+                    .any(|t| t == name);
+                if !mentions {
+                    self.shadowed += 1;
+                    let global_top = self.scopes.len() == 1;
+                    self.scopes.last_mut().unwrap().vars.push(Var { name: name.clone(), ty, min_len, global_top, frozen: false });
+                    return name;
+                }
+            }
+        }
+        self.declare(ty, min_len)
     }
 
     fn declare(&mut self, ty: Ty, min_len: usize) -> String {
@@ -251,7 +312,13 @@ impl<'a> Gen<'a> {
     }
 
     fn pop_scope(&mut self) {
-        self.scopes.pop();
+        if let Some(sc) = self.scopes.pop() {
+            for v in sc.vars {
+                if v.name.starts_with('v') {
+                    self.dead_names.push(v.name);
+                }
+            }
+        }
     }
 
     // ---- types -------------------------------------------------------------------------------
@@ -867,6 +934,16 @@ impl<'a> Gen<'a> {
             ("compile:reference", "onbekend;"),
             ("compile:break", "stop;"),
         ];
+        // a name whose block has ended is unknown again (a compile-time reference error)
+        if self.rng.chance(1, 5) {
+            let visible: Vec<String> = self.visible().into_iter().map(|v| v.name.clone()).collect();
+            let dead: Vec<String> = self.dead_names.iter().filter(|n| !visible.contains(n)).cloned().collect();
+            if !dead.is_empty() {
+                let n = self.rng.pick(&dead).clone();
+                self.planted = Some("compile:out-of-scope".to_string());
+                return format!("{};", n);
+            }
+        }
         let mut i = self.rng.usize(kinds.len());
         if kinds[i].0 == "compile:break" && self.lexical_loops > 0 {
             i = 0;
@@ -944,7 +1021,7 @@ impl<'a> Gen<'a> {
             (self.expr(&ty, d), 0)
         };
         let e = if ty == Ty::Int { format!("({} % 1000003)", e) } else { e };
-        let name = self.declare(ty, min_len);
+        let name = self.declare_init(ty, min_len, &e);
         format!("stel {} = {};", name, e)
     }
 
